@@ -149,21 +149,50 @@ def run_job(args):
                 "time_s": t, "detail": detail, "witness": witness, "functions": c.functions,
                 "bound": c.bounded, "contract": idx, "param": pi}
 
-    try:
-        ex = symrun.Explorer(max_paths=c.max_paths)
-        paths = ex.run(lambda path: c.fn(_SymCtxH(path, hints), **p))
-    except symrun.PathLimit as e:
-        return [res("explore", ERROR, detail="path limit: %s" % e)], info
-    except Exception:
-        return [res("explore", ERROR, detail=traceback.format_exc()[-1500:])], info
-    info["paths"] = len(paths)
-
     rng = random.Random((seed * 1000003 + idx * 7919 + pi) & 0xFFFFFFFF)
 
     def sample_values():
         if c.sampler is not None:
             return c.sampler(rng, **p)
         return _default_sample(rng, hints)
+
+    def native_only(err):
+        """the symbolic run could not be completed (unsupported construct, path limit): the
+        obligations are undecided, but a native counterexample on in-contract inputs is still a
+        violation with a witness"""
+        res_list = [err]
+        bad = {}
+        n_ok = 0
+        for _ in range(max(c.search, 6 * c.nsamples)):
+            vals = sample_values()
+            try:
+                r = run_concrete(c, p, vals)
+            except Exception as e:
+                bad.setdefault("path-exception", (vals, "native exception %r" % (e,)))
+                continue
+            if r is None:
+                continue
+            n_ok += 1
+            for name, ok in r.items():
+                if not ok:
+                    bad.setdefault(name, (vals, "native search: ensure false"))
+            if n_ok >= 20 or (bad and n_ok >= 3):
+                break
+        for name, (vals, why) in bad.items():
+            res_list.append(res(name, FAILED, "native", 0.0, why + " (symbolic run incomplete)",
+                                {"inputs": vals, "params": {k: _short(v) for k, v in p.items()}, "how": why}))
+        return res_list, info
+
+    try:
+        ex = symrun.Explorer(max_paths=c.max_paths)
+        paths = ex.run(lambda path: c.fn(_SymCtxH(path, hints), **p))
+    except symrun.PathLimit as e:
+        return native_only(res("explore", ERROR, detail="path limit: %s" % e))
+    except Exception:
+        return native_only(res("explore", ERROR, detail=traceback.format_exc()[-1500:]))
+    info["paths"] = len(paths)
+    if paths and all(pp.outcome[0] == "exc" for pp in paths):
+        return native_only(res("path-exception", ERROR, detail=paths[0].outcome[1]))
 
     def native_search(name, n):
         """look for a native counterexample to ensure `name`"""
